@@ -45,3 +45,5 @@ Check (C10_set_ttl_succeeds : forall v it t qls qt lA lN lR r x,
   it_offset it <> None -> it_name_end it = rv_name_end r ->
   exists s', m_set_ttl t (v, it) = (s', Ok tt)).
 Print Assumptions C10_set_ttl_succeeds.
+Check (C10_refused_name_changes_nothing : forall nm s e, check_compressed_name nm 0 = Err e -> m_set_raw_name nm s = (s, Err e)).
+Print Assumptions C10_refused_name_changes_nothing.
